@@ -10,7 +10,7 @@ from ..ctx import level_of
 
 ID = "C12"
 OPS = "MIDP=XH"
-OPS_SN = "MIDP=XHSN"      # soft clip / skipped region: query-only / reference-only operations
+OPS_SN = OPS      # (S and N are outside the claim: see the quantifier of C12)
 
 
 def setup(ctx):
@@ -77,20 +77,6 @@ def run(case, ctx):
     c = rc.value
     if str(l) != lt:
         ctx.violation("complement-mutates-receiver", "%r became %r" % (lt, str(l)))
-        return
-    if any(ch in case["ov"] for ch in "SN"):
-        # S consumes the query only, N the reference only.  The statement names the exchange of
-        # insertions and deletions only; which operation S and N turn into is not specified, but
-        # the two laws are: the lengths are exchanged, and the complement of the complement is the link
-        ctx.count("complements_with_S_or_N")
-        a, b = l.overlap, c.overlap
-        if (a.length_on_reference(), a.length_on_query()) != (b.length_on_query(), b.length_on_reference()):
-            ctx.violation("complement-lengths/SN", "%s -> %s: (%d,%d) vs (%d,%d)" % (case["ov"], b, a.length_on_reference(),
-                          a.length_on_query(), b.length_on_reference(), b.length_on_query()))
-            return
-        rcc = call(ctx, "complement", c.complement)
-        if not rcc.ok or str(rcc.value) != lt:
-            ctx.violation("complement-not-involutive/SN", "%r -> %r -> %r" % (lt, str(c), str(rcc.value) if rcc.ok else rcc.cls()))
         return
     if str(c) != ct:
         ctx.violation("complement-wrong/%s" % _which(str(c), ct), "complement of %r is %r, expected %r" % (lt, str(c), ct))
